@@ -4,6 +4,7 @@ package test
 // or on a traveler without a current element.
 
 import (
+	"os"
 	"path/filepath"
 	"testing"
 
@@ -31,8 +32,24 @@ func TestDemoUnwindPanics(t *testing.T) {
 		{ID: "b", Label: "P", Data: map[string]interface{}{}, Loaded: true},
 	})
 	work := filepath.Join(dir, "work")
+	os.MkdirAll(work, 0o755)
 	n := countRowsDup(t, gi, work, unwindQ(gripql.NewQuery().V()).Count())
 	t.Logf("V().unwind(x).count(): %d rows", n)
 	n = countRowsDup(t, gi, work, unwindQ(gripql.NewQuery().V().OutNull("nolabel")))
 	t.Logf("V().outNull(nolabel).unwind(x): %d rows", n)
+	for name, q := range map[string]*gripql.Query{
+		"outNull.out":   gripql.NewQuery().V().OutNull("nolabel").Out(),
+		"outNull.in":    gripql.NewQuery().V().OutNull("nolabel").In(),
+		"outNull.outE":  gripql.NewQuery().V().OutNull("nolabel").OutE(),
+		"outNull.inE":   gripql.NewQuery().V().OutNull("nolabel").InE(),
+		"outNull.both":  gripql.NewQuery().V().OutNull("nolabel").Both(),
+		"outNull.bothE": gripql.NewQuery().V().OutNull("nolabel").BothE(),
+		"outNull.hasKey": gripql.NewQuery().V().OutNull("nolabel").HasKey("x"),
+		"outNull.fields": gripql.NewQuery().V().OutNull("nolabel").Fields("x"),
+		"outNull.distinct": gripql.NewQuery().V().OutNull("nolabel").Distinct("x"),
+		"outNull.as.select": gripql.NewQuery().V().OutNull("nolabel").As("a").Select("a"),
+	} {
+		n := countRowsDup(t, gi, work, q)
+		t.Logf("%s: %d rows", name, n)
+	}
 }
